@@ -62,7 +62,10 @@ def cases(tier, seed):
                        # at the identity and a rotation breaks those ties
                        # arbitrarily)
                        'variant': 'plain' if (name == 'LMNN' and
-                                              rel == 'rotate') else 'dyadic',
+                                              rel == 'rotate') else
+                       # (k-NN selections tie too often on the coarse grid)
+                       'dyadic_fine' if name in ('LMNN', 'SCML_Supervised')
+                       else 'dyadic',
                        'nmax': 44},
                 'seed': int(r.randint(1000)), 'rseed': int(r.randint(2**31 - 1))})
   from ..workloads import configs
@@ -130,7 +133,8 @@ def run_case(spec, j):
   rng = rng_for('c19run', spec['rseed'])
   f1 = common.build(spec, ds)
   kind = E.KIND[name]
-  if name in ('LMNN', 'SCML_Supervised') and ds['variant'] == 'dyadic':
+  if name in ('LMNN', 'SCML_Supervised') and \
+          ds['variant'].startswith('dyadic'):
     # k-NN based target / triplet selection: an exact distance tie at the
     # selection boundary (frequent on a grid) makes the selection itself
     # ambiguous, whatever the geometry
